@@ -200,6 +200,23 @@ def mk(D, s):
     return ds, sc
 
 
+def seasoned(alg, D, s, build=None):
+    """the algorithm object has served before the judged call: it computed (answers discarded, refusals ignored) a consensus of the same
+    rankings under a scheme twice as expensive, and of the same rankings plus the reverse of one of them under the case's scheme.
+    An algorithm object that remembers anything about an earlier call (a memo of scores, of positions, of the scheme) shows it then."""
+    build = build or (lambda raw: Dataset.from_raw_list([[{gen.fwd(e) for e in b} for b in r] for r in raw]))
+    first = next((r for r in D if r), None)
+    warm = [(D, [[2 * x for x in s[0]], [2 * x for x in s[1]]])]
+    if first is not None:
+        warm.append(([[list(b) for b in r] for r in D] + [[list(b) for b in reversed(first)]], s))
+    for D2, s2 in warm:
+        try:
+            alg.compute_consensus_rankings(build(D2), ScoringScheme(s2), False)
+        except Exception:
+            pass
+    return alg
+
+
 def lst(r):
     return [[gen.back(e.value) for e in b] for b in r.buckets]
 
